@@ -116,3 +116,19 @@ Example C09_example_idempotent :
             Lrtcp_fb FbAll (Some ([110], Some [])); Lssrc 5 [120] [121]; Lmsid (Some [])] in
   exists d ls, absorb t = Ok d /\ render d = Ok ls /\ ls <> t /\ bind (absorb ls) render = Ok ls.
 Proof. eexists. eexists. split; [vm_compute; reflexivity|]. split; [vm_compute; reflexivity|]. split; [discriminate|vm_compute; reflexivity]. Qed.
+
+(* contrib/signaling.py: the object <-> message mapping is a bijection between
+   {description with type offer/answer, candidate (with sdpMid / sdpMLineIndex), bye} and the
+   messages object_to_string writes (json itself is trusted): reading back what was written gives
+   the object, distinct objects give distinct messages, and re-writing what was read from such a
+   message gives the message. *)
+Theorem C09_signaling_roundtrip :
+  (forall o, sobj_ok o -> obj_of_msg (msg_of_obj o) = Ok o) /\
+  (forall o1 o2, msg_of_obj o1 = msg_of_obj o2 -> o1 = o2) /\
+  (forall m o, obj_of_msg m = Ok o -> (exists o', sobj_ok o' /\ m = msg_of_obj o') -> msg_of_obj o = m).
+Proof. exact (conj signaling_roundtrip (conj msg_of_obj_inj signaling_msg_roundtrip)). Qed.
+Print Assumptions C09_signaling_roundtrip.
+
+Example C09_example_signaling :
+  sobj_ok (SDesc [118] s_offer) /\ sobj_ok (SCand (mkCand [49] 1 [117] 5 [58;58] 9 [104] None (Some 7) None) (Some [48]) None).
+Proof. cbn. auto. Qed.
